@@ -32,7 +32,19 @@ impl<M: MovingAverageConstructor> AverageDirectionalIndex<M> {
 		r is Ok ==> self.method1.seeded(rmax(candle.high_s()@, candle.close_s()@) - rmin(candle.low_s()@, candle.close_s()@), &r->Ok_0.tr_ma)
 			&& self.method1.seeded(0real, &r->Ok_0.plus_di) && self.method1.seeded(0real, &r->Ok_0.minus_di) && self.method2.seeded(0real, &r->Ok_0.ma2),
 		r is Ok ==> r->Ok_0.prev_close == candle.close_s() && r->Ok_0.window.view().len() == self.period1,
+		// C08: for averaging kinds that cannot overshoot and an ordered candle this is the constant state for that candle (adx_const_step)
+		r is Ok && self.method1.convex_kind() && self.method2.convex_kind() && candle.low_s()@ <= candle.close_s()@ <= candle.high_s()@ ==>
+			exists|h: HLC| h.high == candle.high_s() && h.low == candle.low_s() && h.close == candle.close_s() && #[trigger] r->Ok_0.const_state(h),
 //@replace Ok(Self::Instance { ==> Ok(AverageDirectionalIndexInstance {
+//@replace window: Window::new(cfg.period1, HLC::from(candle)), ==> window: { let h0__ = HLC::from(candle); proof { h0 = h0__; } Window::new(cfg.period1, h0__) },
+//@hint before let cfg = self;
+	let ghost mut h0: HLC = arbitrary();
+//@hint result
+	proof {
+		if r is Ok && self.method1.convex_kind() && self.method2.convex_kind() && candle.low_s()@ <= candle.close_s()@ <= candle.high_s()@ {
+			assert(r->Ok_0.const_state(h0));
+		}
+	}
 //@end
 }
 // one step of the directional-movement part (dir_mov)
